@@ -639,19 +639,99 @@ def budget_stream(chk, quick=True, R=None, rng=None):
     return len(runs)
 
 
+def multi_label_stream(chk, quick=True, R=None, rng=None):
+    """asm blocks with 2-4 labels and value-dependent rule families on both sides of every label (callable from
+    tools/props/c02.py).  Oracle: the in-place meaning evaluated on the implementation's own output
+    (c17_gen.MultiLabelCase.consistent decodes the bits: every label of the block is the address where it lies, every
+    line is the rule its operand selects, with that operand) for every budget that assembles; the hand-inlined program's
+    output is decoded the same way; budget monotonicity over 1..16 and 30 on a part of the cases."""
+    R = R or asm_streams.Runner(("debug",))
+    rng = rng or chk.rng.fork("c17-multilabel")
+    n = 300 if quick else 4000
+    nsweep = 60 if quick else 1000
+    cases = [c17_gen.MultiLabelCase(rng) for _ in range(n)]
+    sw = [(rng.chance(0.5), rng.chance(0.5)) for _ in cases]
+    runs, owner = [], []
+    for i, c in enumerate(cases):
+        for b in (BUDGETS if i < nsweep else [10, 30]):
+            runs.append((c.macro_text(), b, sw[i][0], sw[i][1])); owner.append((i, b))
+    ans = R.impl(runs)
+    twin = R.impl([(c.inplace_text(), 30, s_, m_) for c, (s_, m_) in zip(cases, sw)])
+    dist = {"assembles": 0, "rejected": 0, "in_place_assembles": 0, "two_fixed_points": 0, "macro_fails_in_place_assembles": 0}
+    per = {}
+    for (i, b), a in zip(owner, ans):
+        per.setdefault(i, []).append((b, a))
+    for i, c in enumerate(cases):
+        s_, m_ = sw[i]
+        rows = per[i]
+        rep = {"kind": "budget", "family": "multi-label-block", "program": c.macro_text(), "inlined": c.inplace_text(), "static_opt": s_, "matcher_opt": m_,
+               "budget": 30, "by_budget": {str(b): a[:400] for b, a in rows}}
+        can = [(b, asm_gen.canon_impl(a), a) for b, a in rows]
+        ct = asm_gen.canon_impl(twin[i])
+        if any(x[1][0] not in GOOD for x in can) or ct[0] not in GOOD:
+            chk.violation("implementation crashed or was inconsistent on a multi-label asm block", rep)
+            continue
+        bad = False
+        for b, cc, raw in can:
+            if cc[0] == "OK":
+                ok, why = c.consistent(cc[1])
+                if not ok:
+                    chk.violation("an asm block with several labels assembles (budget %d) to bits that are not its in-place meaning: %s" % (b, why),
+                                  dict(rep, budget=b, budget_small=b, budget_large=b, impl=raw[:600]))
+                    bad = True
+                    break
+        if bad:
+            continue
+        if ct[0] == "OK":
+            dist["in_place_assembles"] += 1
+            ok, why = c.consistent(ct[1])
+            if not ok:
+                chk.violation("the hand-inlined program of a multi-label block assembles to bits that the decoder rejects (%s)" % why, dict(rep, impl_inlined=twin[i][:600]), found=False)
+                continue
+        last = can[-1][1]
+        if last[0] == "OK":
+            dist["assembles"] += 1
+            chk.nontriv(c.macro_text())
+            if ct[0] == "OK" and ct[1] != last[1]:
+                dist["two_fixed_points"] += 1
+        else:
+            dist["rejected"] += 1
+            if ct[0] == "OK":
+                dist["macro_fails_in_place_assembles"] += 1
+        if i < nsweep:
+            row = [x[1] for x in can]
+            first = next((j for j, x in enumerate(row) if x[0] == "OK"), None)
+            if first is not None:
+                for j in range(first, len(row)):
+                    if asm_streams.sig(row[j]) != asm_streams.sig(row[first]):
+                        badp = ("", BUDGETS[first], BUDGETS[j])
+                        fid = known_class("asm_block_budget_coupling")
+                        if fid and is_budget_coupling(R, c.macro_text(), s_, m_, row, badp):
+                            chk.known(fid, "slowly settling asm block: assembles with budget %d, different bits with budget %d" % (badp[1], badp[2]))
+                            dist["known_" + fid] = dist.get("known_" + fid, 0) + 1
+                        else:
+                            chk.violation("the iteration budget changes WHAT a multi-label asm block assembles to: budget %d versus %d" % (badp[1], badp[2]),
+                                          dict(rep, budget_small=badp[1], budget_large=badp[2]))
+                        break
+    chk.count("multi_label_blocks", len(runs) + len(cases), programs=len(cases), **dist)
+    chk.sample({"multi_label_block": cases[0].macro_text()})
+    return len(runs) + len(cases)
+
+
 def run(chk):
     chk.rule = RULE
     chk.prove()
     R = asm_streams.Runner(("debug",))
     quick = chk.tier == "quick"
     rng = chk.rng.fork("c17")
-    t1, d1 = macro_stream(chk, R, rng.fork("macro"), 900 if quick else 15000, True, "macro_size_static_isa")
+    t1, d1 = macro_stream(chk, R, rng.fork("macro"), 800 if quick else 15000, True, "macro_size_static_isa")
     t2, d2 = macro_stream(chk, R, rng.fork("cascade"), 350 if quick else 5000, False, "macro_cascading_isa")
     t3 = directed_stream(chk, R, rng.fork("directed"), 12 if quick else 120)
     t4, d4 = fn_stream(chk, R, rng.fork("fn"), 700 if quick else 12000)
     t5 = depth_stream(chk, R, rng.fork("depth"), quick)
     t5 += budget_stream(chk, quick, R, rng.fork("budget"))
     t5 += bank_stream(chk, R, rng.fork("banks"), 250 if quick else 4000)
+    t5 += multi_label_stream(chk, quick, R, rng.fork("multilabel"))
     chk.cov["traces_validated_against_impl"] = t1 + t2 + t3 + t4 + t5
     chk.cov["disagreements_checked"] = d1 + d2 + d4
 
